@@ -47,6 +47,10 @@ drain2.
 addwhile :- p(X), assertz(p(X)), never_defined(X).
 addwhile.
 gscan(X) :- p(X), c(a).
+addone(X) :- p(X), assertz(p(X)).
+faddwhile :- findall(X, addone(X), _).
+dropone(X) :- p(X), retract(p(X)).
+fdrain :- findall(X, dropone(X), _).
 '''
 
 
@@ -146,8 +150,8 @@ class ModelSim:
         self.store.clear()
 
     def idiom(self, name):
-        if name in ('drain', 'drain2'):
-            key = ('p', 1) if name == 'drain' else ('p', 2)
+        if name in ('drain', 'drain2', 'fdrain'):
+            key = ('p', 2) if name == 'drain2' else ('p', 1)
             for rid, row in self.store.snapshot(key):
                 # retract(p(Row)) with ground Row: removes every stored record equal to Row, one per backtrack
                 for rid2, row2 in self.store.snapshot(key):
@@ -161,7 +165,7 @@ class ModelSim:
                     self.store.remove_id(key, rid)
                     self.store.add(key, (('f', 's', (row[0],)),), False)
             self.touch(key)
-        elif name == 'addwhile':
+        elif name in ('addwhile', 'faddwhile'):
             key = ('p', 1)
             for rid, row in self.store.snapshot(key):
                 self.store.add(key, row, False)
@@ -283,7 +287,7 @@ def gen(seed, tier):
                 ops.append(['retractall', ki, pat, aimed_flag])
                 m.retractall(key, [TM.T(t) for t in pat])
         elif k < 0.93 + p_idiom:
-            name = rng.choice(('drain', 'upd', 'drain2', 'addwhile'))
+            name = rng.choice(('drain', 'upd', 'drain2', 'addwhile', 'faddwhile', 'fdrain'))
             ops.append(['idiom', name])
             m.idiom(name)
         elif k < (0.88 if depth_faults else 0.985):
